@@ -1,17 +1,67 @@
 /-
-  Driver operation of C01 for the experiment-space sizes (`ExperimentSpace.n_unique_treatments`,
-  `ExperimentSpace.n_unique_samples`, `Screen.treatment_space_size`, `Screen.sample_space_size`), so that the
-  definitions `C01_space_bounds` speaks about are the ones executed against the real `ExperimentSpace`.
+  Driver operations of C01 beyond `mkscreen` (Model/ScreenIO.lean):
 
-  `espace <raw screen…>`  ->  `ok nt=<n_unique_treatments> ns=<n_unique_samples> tss=<len treatment mapping> sss=<len sample mapping>`
+  `espace <raw screen…>`   `ok nt=<n_unique_treatments> ns=<n_unique_samples> tss=<len treatment mapping> sss=<len sample mapping>`
+  `spaceapi <ctrl> <tmap> <smap> <queries>`   the `ExperimentSpace` query API on an arbitrary pair of mappings (not necessarily accepted by
+                           `Screen(...)`): counts, then one answer per query joined by `|`; queries joined by `,` (`-` = none):
+                           `t<name>` -> `ids=<treatment_ids_from_treatment_name>;doses=<doses_for_treatment>`,
+                           `s<name>` -> `sample_id_from_sample_name` or `err:ValueError`, `i<int>` -> `sample_name_from_sample_id` or `err:ValueError`
+  `derived <raw screen…>`  the derived `ScreenBase` properties of the screen
+  `combine <raw A> <raw B>` / `concat <k> <raw 1> … <raw k>`   `Screen.combine` / `Screen.concat` of screens built from the raws
+  `ste <raw screen…>`      which rows `single_treatment_effects` averages per cell (`none` = property is None)
 -/
 import Batchie.Model.ScreenIO
+import Batchie.Model.ScreenApi
 
 namespace Batchie.ScreenIOC01
-open Batchie.Proto Batchie.Screen Batchie.ScreenIO
+open Batchie.Proto Batchie.Screen Batchie.ScreenIO Batchie.ScreenApi
 
 def showSpace (s : Screen) : String :=
   s!"ok nt={nUniqueTreatments s.tmap} ns={nUniqueSamples s.smap} tss={s.treatmentSpaceSize} sss={s.sampleSpaceSize}"
+
+def showDerived (d : Derived) : String :=
+  s!"size={d.size}|arity={d.arity}|np={d.nPlates}|up={showIds d.uniquePlateIds}|us={showIds d.uniqueSampleIds}|ut={showIds d.uniqueTreatments}" ++
+  s!"|nus={d.nUniqueSamples}|nut={d.nUniqueTreatments}|obs={showBool d.isObserved}|sss={d.sampleSpaceSize}|tss={d.treatmentSpaceSize}"
+
+def showSupport : Except Err (Option (List (List (Option (List Nat))))) → String
+  | .error e => showErr e
+  | .ok none => "none"
+  | .ok (some t) => "ok " ++ showList (showList (fun c => match c with
+      | none => "c"
+      | some idxs => if idxs.isEmpty then "x" else ".".intercalate (idxs.map toString)) ",") ";" t
+
+def steStatus : Except Err (Option (List (List (Option (List Nat))))) → String
+  | .error e => showErr e
+  | .ok none => "none"
+  | .ok (some _) => "arr"
+
+def answer (sp : Space) (q : String) : Option String :=
+  let c := q.take 1 |>.toString
+  let arg := q.drop 1 |>.toString
+  match c with
+  | "t" => do
+      let n ← parseName? arg
+      pure ("ids=" ++ showIds (sp.treatmentIdsFromName n) ++ ";doses=" ++ showList showDose "," (sp.dosesForTreatment n))
+  | "s" => do
+      let n ← parseName? arg
+      pure (match sp.sampleIdFromName n with | .ok i => toString i | .error e => showErr e)
+  | "i" => do
+      let i ← parseInt? arg
+      pure (match sp.sampleNameFromId i with | .ok n => showName n | .error e => showErr e)
+  | _ => none
+
+/-- split a token list into `k` raws of 10 tokens each -/
+def takeRaws : Nat → List String → Option (List Raw)
+  | 0, [] => some []
+  | 0, _ => none
+  | k + 1, toks => do
+      let r ← parseRaw? (toks.take 10)
+      let rest ← takeRaws k (toks.drop 10)
+      pure (r :: rest)
+
+def showScreenRows : Except Err Screen → String
+  | .error e => showErr e
+  | .ok t => showScreen t ++ "|" ++ showRows t
 
 def handle : List String → Option String
   | "espace" :: rest => do
@@ -19,6 +69,37 @@ def handle : List String → Option String
       match mk? r with
       | .error e => pure (showErr e)
       | .ok s => pure (showSpace s)
+  | ["spaceapi", ctrl, tmap, smap, queries] => do
+      let ctrl ← parseName? ctrl
+      let tm ← parseList? parseTEntry? "," tmap
+      let sm ← parseList? parseSEntry? "," smap
+      let sp : Space := { tmap := tm, smap := sm, ctrl := ctrl }
+      let qs := if queries == "-" then [] else queries.splitOn ","
+      let ans ← qs.mapM (answer sp)
+      pure (s!"ok nt={nUniqueTreatments tm} ns={nUniqueSamples sm} ntt={sp.nUniqueTreatmentTypes} nd={sp.nUniqueDoses}" ++
+        String.join (ans.map (fun a => "|" ++ a)))
+  | "derived" :: rest => do
+      let r ← parseRaw? rest
+      match mk? r with
+      | .error e => pure ("parent-" ++ showErr e)
+      | .ok s => pure ("ok " ++ showDerived (screenDerived s))
+  | "ste" :: rest => do
+      let r ← parseRaw? rest
+      match mk? r with
+      | .error e => pure ("parent-" ++ showErr e)
+      | .ok s => pure (showSupport (screenSte s))
+  | "combine" :: rest => do
+      let rs ← takeRaws 2 rest
+      match rs.mapM mk? with
+      | .error e => pure ("parent-" ++ showErr e)
+      | .ok [a, b] => pure (showScreenRows (combine a b))
+      | .ok _ => none
+  | "concat" :: k :: rest => do
+      let k ← parseNat? k
+      let rs ← takeRaws k rest
+      match rs.mapM mk? with
+      | .error e => pure ("parent-" ++ showErr e)
+      | .ok ss => pure (showScreenRows (concat ss))
   | _ => none
 
 end Batchie.ScreenIOC01
